@@ -389,7 +389,12 @@ func (w *apiWorker) op(f []string) (out string) {
 		}
 		return "ok " + entriesOut(idxEntries(ix)) + w.fileAgrees(ix)
 	case "idx.reset":
-		ix, err := w.loadIndex(nil)
+		// optional third field: the staging area before the reset (what is staged must not matter)
+		var before []ent
+		if len(f) > 2 {
+			before = entriesIn(f[2])
+		}
+		ix, err := w.loadIndex(before)
 		if err != nil {
 			return "err-index"
 		}
